@@ -267,7 +267,12 @@ class Verifier:
             if g1 is False or g2 is False:
                 rec["detail"] = dict(result=describe(result), expected=describe(exp), post=describe(list(args)), post_expected=describe(argsB))
         if ens is not None:
-            g3 = I.to_sbool(I.call_ref(ens, [C.case, old, list(args), result], {}, top=True))
+            try:
+                g3 = I.to_sbool(I.call_ref(ens, [C.case, old, list(args), result], {}, top=True))
+            except PyRaise as pe:
+                # the postcondition cannot even be evaluated on this outcome (a key it speaks about is missing, ...)
+                g3 = False
+                rec["detail"] = dict(ensures_raises="%s: %s" % (pe.name, describe(pe.msg)), result=describe(result), post=describe(list(args)))
             goals.append(g3)
             if g3 is False and rec["detail"] is None:
                 rec["detail"] = dict(result=describe(result), post=describe(list(args)), old=describe(old))
